@@ -281,7 +281,8 @@ struct FwdInBuf : std::streambuf {
         return traits_type::to_int_type(buf[0]);
     }
 };
-inline bool fwd_streams() { static const bool f = getenv("VERIF_STREAM") && std::string(getenv("VERIF_STREAM")) == "fwd"; return f; }
+inline bool& fwd_forced() { static thread_local bool f = false; return f; }      // a driver may switch to forward-only streams itself
+inline bool fwd_streams() { static const bool f = getenv("VERIF_STREAM") && std::string(getenv("VERIF_STREAM")) == "fwd"; return f || fwd_forced(); }
 
 // A FilePreamble object the application keeps and reads one file after the other into (FilePreamble::read is public API)
 inline FilePreamble& reused_preamble() { static thread_local FilePreamble fp; return fp; }      // (one per thread of a driver)
